@@ -121,7 +121,10 @@ def c13_jobs(tier):
 
 def c15_jobs(tier):
     return [sim("c15-grid", "c15", require_counters=["blocking_pull_timed_against_limit", "blocked_pull_woken_by_publish", "stream_limit_checked", "blocking_pull_after_drain_timed", "parked_consumers_served_by_big_publish"]),
-            sim("c15-waiters", "c06", params={"n": 2000}, require_nontrivial=False)]
+            sim("c15-waiters", "c06", params={"n": 2000}, require_nontrivial=False),
+            # pulls with limits 1 and 3 inside bursts, one burst in five arriving in the instant in which
+            # up to six earlier leases run out: no pull returns more than it asked for
+            sim("c15-bursts", "c07", require_counters=["bursts_at_the_expiry_instant"], require_nontrivial=False)]
 
 
 def conc(name, profile, **kw):
@@ -156,7 +159,10 @@ def c03_jobs(tier):
             # pulls with limits around the 16-bit wrap (0, 65536, ...): ack ids stay unique, leases exclusive
             sim("c03-limits", "c15", require_nontrivial=False),
             sim("c03-push-vs-pull", "c14", params={"maxlen": 1}, require_counters=["competitor_deliveries"], require_nontrivial=False),
-            conc("c03-conc-c01mix", "c01", params={"n": 1500 if tier == "quick" else 20000})]
+            conc("c03-conc-c01mix", "c01", params={"n": 1500 if tier == "quick" else 20000}),
+            # push rounds over a backlog of 2300 messages with an endpoint that takes 20 ms per POST:
+            # nothing is POSTed a second time while the lease of its first POST is running
+            sim("c03-push-lifecycle", "c14r", require_counters=["big_push_backlogs_drained"], require_nontrivial=False)]
     if tier == "thorough":
         jobs.append(conc("c03-conc-h2", "c03", transport="h2"))
         jobs.append(asan_mt("c03-asan-mt", "conc", params={"profile": "c03"}, crash_property="C03"))
